@@ -354,9 +354,6 @@ CHECKS = {
               "represented by one byte; undecided (timeout) expressions are not counted as passed."),
         technique="TLA+/TLC product of derivative automaton (spec) with the extracted compiled automaton, per expression",
     ),
-}
-
-NOT_YET = {
     "C20": dict(
         category="fault_enumeration",
         text=("Light-aggregator half of the property. Ipa.tla models the inner-product argument over a toy field with group elements "
@@ -377,6 +374,9 @@ NOT_YET = {
               "panicking instead of returning Err (counted as refusal, noted in the evidence)."),
         technique="TLA+/TLC model checking of the IPA folding argument + spec-checked fault enumeration on recorded aggregator transcripts (trace validation)",
     ),
+}
+
+NOT_YET = {
 }
 
 ALL = [f"C{i:02d}" for i in range(1, 21)]
